@@ -81,6 +81,7 @@ func runC08(r *Run) {
 	if r.Want("e2e") {
 		c08EndToEnd(r)
 	}
+	c08SlowStats(r)
 }
 
 func c08Pure(r *Run) {
